@@ -43,9 +43,21 @@ func buildDocumentIdentifier(doc *spdx23.Document) string {
 	)
 }
 
+// readSPDXDocument decodes an SPDX JSON document. The decoding library panics
+// on some malformed documents (for example a null entry in the packages list),
+// such a panic is reported as a parsing error.
+func readSPDXDocument(r io.Reader) (doc *spdx.Document, err error) {
+	defer func() {
+		if p := recover(); p != nil {
+			doc, err = nil, fmt.Errorf("malformed document: %v", p)
+		}
+	}()
+	return spdxjson.Read(r)
+}
+
 // ParseStream reads an io.Reader to parse an SPDX 2.3 document from it
 func (u *SPDX23) Unserialize(r io.Reader, _ *native.UnserializeOptions, _ interface{}) (*sbom.Document, error) {
-	spdxDoc, err := spdxjson.Read(r)
+	spdxDoc, err := readSPDXDocument(r)
 	if err != nil {
 		return nil, fmt.Errorf("parsing SPDX json: %w", err)
 	}
